@@ -90,6 +90,11 @@ struct St {
 
 struct M {
     nvecs_set: usize,
+    /// non-initial start state: an index (of this metric) holding ONE node whose vector has been
+    /// rewritten this many times. The number of vector writes an index has seen is implementation
+    /// state that decides futures (HNSW keeps every superseded point; the exact-scan / HNSW switch
+    /// sits at 128): unreachable from the empty store within the tiers' depth (seeded change C29).
+    prefill: Option<(Metric, usize)>,
 }
 
 fn vlit(i: usize) -> String {
@@ -316,7 +321,17 @@ impl Model for M {
     type State = St;
     type Key = String;
     fn init(&self) -> St {
-        St { g: GraphStore::new(), eng: QueryEngine::new(), r: Ref::default() }
+        let mut st = St { g: GraphStore::new(), eng: QueryEngine::new(), r: Ref::default() };
+        if let Some((metric, n)) = &self.prefill {
+            self.apply(&mut st, &Op::CreateIndex(metric.clone()), false);
+            self.apply(&mut st, &Op::CreateV(0, 0), false);
+            for i in 0..*n {
+                self.apply(&mut st, &Op::SetE(0, 1 + (i % 2)), false);
+            }
+            // the prefill is not part of the explored history
+            st.r.hist.clear();
+        }
+        st
     }
     fn ops(&self, st: &St) -> Vec<Op> {
         let r = &st.r;
@@ -496,7 +511,7 @@ fn main() {
             svmc::Tier::Quick => (4, 3, 2_000_000u64),
             svmc::Tier::Thorough => (5, 3, 2_000_000u64),
         };
-        let m = M { nvecs_set };
+        let m = M { nvecs_set, prefill: None };
         if let Some(p) = &ctx.replay {
             replay(ctx, &m, p);
             return;
@@ -504,6 +519,19 @@ fn main() {
         let stats = hx::explore(&m, depth, cap, |v| {
             ctx.violation(&v.sig, v.msg, json!({"history": v.history.iter().map(|o| format!("{:?}", o)).collect::<Vec<_>>()}));
         });
+        // second pass: from the prefilled start states (130 rewrites of one node's vector), both metrics
+        let mut stats = stats;
+        let pre_depth = if ctx.quick() { 1 } else { 2 };
+        for metric in [Metric::Cosine, Metric::L2] {
+            let mp = M { nvecs_set, prefill: Some((metric.clone(), 130)) };
+            let s2 = hx::explore(&mp, pre_depth, cap, |v| {
+                ctx.violation(&v.sig, format!("[start: index with one node after 130 vector rewrites] {}", v.msg), json!({"prefill": format!("{:?} index, one node, 130 vector rewrites", metric), "history": v.history.iter().map(|o| format!("{:?}", o)).collect::<Vec<_>>()}));
+            });
+            stats.states += s2.states;
+            stats.transitions += s2.transitions;
+            stats.pruned_after_violation += s2.pruned_after_violation;
+            stats.cap_hit |= s2.cap_hit;
+        }
         hx::report(
             ctx,
             &stats,
@@ -521,7 +549,7 @@ fn main() {
 fn replay(ctx: &svmc::Ctx, m: &M, p: &std::path::Path) {
     let doc: serde_json::Value = serde_json::from_str(&std::fs::read_to_string(p).expect("read replay")).expect("json");
     let hist: Vec<String> = doc["witness"]["history"].as_array().unwrap().iter().map(|s| s.as_str().unwrap().to_string()).collect();
-    let mfull = M { nvecs_set: 5 };
+    let mfull = M { nvecs_set: 5, prefill: None };
     let _ = m;
     let mut st = mfull.init();
     for (i, want) in hist.iter().enumerate() {
